@@ -502,6 +502,10 @@ fn main() {
             let m: model::GenModel = serde_json::from_str(&text).expect("GenModel JSON");
             println!("model: {m}");
             println!("exact: {:?}", oracle::decide(&m));
+            match solvers::to_builder(&m).0.linearize() {
+                Ok(lm) => println!("builder linearize():\n{lm}\n"),
+                Err(e) => println!("builder linearize() failed: {e}"),
+            }
             for e in solvers::ALL_ENTRIES {
                 if !e.accepts(&m) {
                     continue;
